@@ -28,8 +28,8 @@ EXTENDS SsaCore, Json
 
 CONSTANTS MaxRx, MaxSide, NT
 
-VARIABLES prog, safe, dt, V0, G, vm, x0, x, now, idx, rows, vols, nq, n, fired, steps, pc, tau, divided
-vars == <<prog, safe, dt, V0, G, vm, x0, x, now, idx, rows, vols, nq, n, fired, steps, pc, tau, divided>>
+VARIABLES prog, safe, dt, vd, V0, G, vm, x0, x, now, idx, rows, vols, nq, n, fired, steps, pc, tau, divided
+vars == <<prog, safe, dt, vd, V0, G, vm, x0, x, now, idx, rows, vols, nq, n, fired, steps, pc, tau, divided>>
 
 SeqsUpTo(k) == UNION {[1..j -> Sp] : j \in 0..k}
 KG == {I(2), R(1, 2), I(1), I(3)}
@@ -51,11 +51,14 @@ VMs == {NoVM}
    \cup {[kind |-> "state", noise |-> ns, rho |-> rho, sg |-> sg, m |-> 1, avg |-> a] :
             ns \in {Zero, R(1, 8)}, rho \in {R(1, 2), I(1)}, sg \in {1, -1}, a \in {I(3), I(5), R(21, 2)}}
 ZPrime(v) == RAdd(One, RMul(v.noise, RMul(I(v.sg), v.rho)))            \* normal_rv(1, noise) with z = sg * rho
-\* time model: time left = ln(Vdiv / V0) / g with Vdiv = 2^m V0 and g = ln 2 / T, T = dt: m * dt
-DivT == RMul(ZPrime(vm), RMul(I(vm.m), dt))
+\* the simulator's own time step (interface dt): the volume is stepped every Vdt = dt / vd, i.e. vd times per grid step
+\* (vd = 1: the entry point's choice for a uniform grid; vd = 2: a user-set finer step)
+Vdt == RDiv(dt, I(vd))
+\* time model: time left = ln(Vdiv / V0) / g with Vdiv = 2^m V0 and g = ln 2 / T, T = Vdt: m * Vdt
+DivT == RMul(ZPrime(vm), RMul(I(vm.m), Vdt))
 DivV == RMul(vm.avg, ZPrime(vm))
 
-Init == /\ prog = [decl |-> << >>, rx |-> << >>] /\ safe = FALSE /\ dt = One /\ V0 = One /\ G = 1 /\ vm = NoVM
+Init == /\ prog = [decl |-> << >>, rx |-> << >>] /\ safe = FALSE /\ dt = One /\ vd = 1 /\ V0 = One /\ G = 1 /\ vm = NoVM
         /\ x0 = [s \in Sp |-> 0] /\ x = x0 /\ now = Zero /\ idx = 0 /\ rows = << >> /\ vols = << >> /\ nq = 1 /\ n = 0
         /\ fired = << >> /\ steps = << >> /\ pc = "build" /\ tau = One /\ divided = FALSE
 NewTau == tau' \in Pk(TauGrid)
@@ -68,7 +71,7 @@ AddRx == /\ pc = "build" /\ NRx(prog) < MaxRx
                          named |-> (Len(pr) % 2 = 1), unset |-> FALSE] IN
               /\ (RxBounded(rx) = TRUE)
               /\ prog' = [prog EXCEPT !.rx = Append(@, rx)]
-         /\ UNCHANGED <<safe, dt, V0, G, vm, x0, x, now, idx, rows, vols, nq, n, fired, steps, pc, tau, divided>>
+         /\ UNCHANGED <<safe, dt, vd, V0, G, vm, x0, x, now, idx, rows, vols, nq, n, fired, steps, pc, tau, divided>>
 
 \* also a program without reactions (pure growth) may start
 Start == /\ pc = "build"
@@ -77,6 +80,7 @@ Start == /\ pc = "build"
               v0 \in Pk({R(1, 4), R(1, 2), I(1), R(3, 2), I(2), I(4)}), vk \in Pk(1..4) :
             \E v \in (IF vk <= 2 THEN {NoVM} ELSE Pk(VMs \ {NoVM})) :      \* half of the runs at constant volume (C11 a)
               /\ x0' = xx /\ x' = xx /\ dt' = d /\ V0' = v0 /\ vm' = v
+              /\ vd' \in Pk({1, 1, 2})
               /\ G' = (IF v.kind = "const" THEN 1 ELSE 2)
               /\ safe' = (IF NeedsSafe(prog) THEN TRUE ELSE sf)
          /\ fired' = [r \in 1..NRx(prog) |-> 0]
@@ -91,7 +95,7 @@ A == Props(prog, x, safe, TRUE, VolAt(n))
 L == Lambda(A)
 Small == IF NRx(prog) = 0 THEN TRUE ELSE (IF n <= 12 THEN SmallGrid(A, 400) ELSE FALSE)
 NextT == Tp(idx + 1)
-QT == RMul(I(nq), dt)
+QT == RMul(I(nq), Vdt)
 P0 == IF L = Zero THEN NextT ELSE RAdd(now, tau)
 GridTimes == {Tp(i) : i \in 1..(NT + 1)} \cup {QT}
 Tie == IF L = Zero THEN FALSE ELSE P0 \in GridTimes
@@ -103,10 +107,10 @@ Running == pc = "run" /\ idx < NT /\ (Small = TRUE)
 
 DividesAt(t, k) ==      \* asked right after the volume step ending at time t, with k growth steps done
     CASE vm.kind = "const" -> FALSE
-      [] vm.kind = "time"  -> RLt(RSub(t, dt), DivT) /\ RLe(DivT, t)
+      [] vm.kind = "time"  -> RLt(RSub(t, Vdt), DivT) /\ RLe(DivT, t)
       [] vm.kind = "state" -> RLt(DivV, VolAt(k))
 \* inputs that put the division threshold exactly on a grid time / on a reachable volume are flagged (not replayed)
-DivTie == IF vm.kind = "time" THEN \E i \in 0..(2 * NT) : DivT = RMul(I(i), dt)
+DivTie == IF vm.kind = "time" THEN \E i \in 0..(4 * NT) : DivT = RMul(I(i), Vdt)
           ELSE IF vm.kind = "state" THEN \E k \in 0..14 : VolAt(k) = DivV ELSE FALSE
 
 IterVStep ==
@@ -116,7 +120,7 @@ IterVStep ==
     /\ steps' = Append(steps, [a |-> "vstep", e |-> Draw, u |-> Zero, r |-> 0])
     /\ IF DividesAt(QT, n + 1) THEN divided' = TRUE /\ pc' = "done" ELSE divided' = FALSE /\ pc' = pc
     /\ NewTau
-    /\ UNCHANGED <<prog, safe, dt, V0, G, vm, x0, x, fired>>
+    /\ UNCHANGED <<prog, safe, dt, vd, V0, G, vm, x0, x, fired>>
 
 IterSkip ==
     /\ Running /\ ~Tie /\ ~VWins /\ L = Zero
@@ -124,7 +128,7 @@ IterSkip ==
     /\ rows' = Record(rows, idx, NextT, x) /\ vols' = Record(vols, idx, NextT, n) /\ idx' = Len(rows')
     /\ steps' = Append(steps, [a |-> "absorb", e |-> Zero, u |-> Zero, r |-> 0])
     /\ NewTau
-    /\ UNCHANGED <<prog, safe, dt, V0, G, vm, x0, x, nq, n, fired, pc, divided>>
+    /\ UNCHANGED <<prog, safe, dt, vd, V0, G, vm, x0, x, nq, n, fired, pc, divided>>
 
 IterFire ==
     /\ Running /\ ~Tie /\ ~VWins /\ L # Zero
@@ -136,14 +140,14 @@ IterFire ==
          /\ fired' = [fired EXCEPT ![r] = @ + 1]
          /\ steps' = Append(steps, [a |-> "fire", e |-> Draw, u |-> u, r |-> r])
     /\ NewTau
-    /\ UNCHANGED <<prog, safe, dt, V0, G, vm, x0, nq, n, pc, divided>>
+    /\ UNCHANGED <<prog, safe, dt, vd, V0, G, vm, x0, nq, n, pc, divided>>
 
 TieRedraw == /\ Running /\ Tie /\ NewTau
-             /\ UNCHANGED <<prog, safe, dt, V0, G, vm, x0, x, now, idx, rows, vols, nq, n, fired, steps, pc, divided>>
+             /\ UNCHANGED <<prog, safe, dt, vd, V0, G, vm, x0, x, now, idx, rows, vols, nq, n, fired, steps, pc, divided>>
 Abandon == /\ pc = "run" /\ idx < NT /\ (Small = FALSE) /\ pc' = "abandoned"
-           /\ UNCHANGED <<prog, safe, dt, V0, G, vm, x0, x, now, idx, rows, vols, nq, n, fired, steps, tau, divided>>
+           /\ UNCHANGED <<prog, safe, dt, vd, V0, G, vm, x0, x, now, idx, rows, vols, nq, n, fired, steps, tau, divided>>
 Finish == /\ pc = "run" /\ idx = NT /\ pc' = "done"
-          /\ UNCHANGED <<prog, safe, dt, V0, G, vm, x0, x, now, idx, rows, vols, nq, n, fired, steps, tau, divided>>
+          /\ UNCHANGED <<prog, safe, dt, vd, V0, G, vm, x0, x, now, idx, rows, vols, nq, n, fired, steps, tau, divided>>
 
 Next == AddRx \/ Start \/ IterVStep \/ IterSkip \/ IterFire \/ TieRedraw \/ Abandon \/ Finish
 Spec == Init /\ [][Next]_vars
@@ -151,13 +155,13 @@ Spec == Init /\ [][Next]_vars
 \* ---------------------------------------------------------------- properties (C11)
 Live == pc \in {"run", "done"}
 \* (b) the reported volume is within one growth step of the growth law: n_i \in {i-2, i-1, i} for row i (1-based)
-GrowthWithinOneStep == Live => \A i \in 1..Len(vols) : vols[i] >= i - 2 /\ vols[i] <= i
+GrowthWithinOneStep == Live => \A i \in 1..Len(vols) : vols[i] >= vd * (i - 2) /\ vols[i] <= vd * i
 Monotone == Live => \A i \in 1..(Len(vols) - 1) : vols[i] <= vols[i + 1]
 \* one volume step per elapsed dt: when the clock stands at the k-th volume time, k steps were taken
 OneStepPerDt == Live => n = nq - 1
 \* the result ends at the first grid time at which the model reports division, and no earlier one did
 RECURSIVE NoEarlierDivision(_)
-NoEarlierDivision(k) == IF k = 0 THEN TRUE ELSE ~DividesAt(RMul(I(k), dt), k) /\ NoEarlierDivision(k - 1)
+NoEarlierDivision(k) == IF k = 0 THEN TRUE ELSE ~DividesAt(RMul(I(k), Vdt), k) /\ NoEarlierDivision(k - 1)
 DivisionEndsResult == (pc = "done" /\ divided) =>
                           /\ DividesAt(now, n) /\ NoEarlierDivision(nq - 2)
                           /\ Len(rows) = idx /\ RLe(Tp(idx), now) /\ (idx < NT => RLt(now, Tp(idx + 1)))
@@ -166,7 +170,7 @@ Lattice == Live => x = AddVec(x0, LET RECURSIVE S(_)
                                        S(r) == IF r = 0 THEN [s \in Sp |-> 0] ELSE AddVec(ScaleVec(fired[r], Col(prog, r, TRUE)), S(r - 1))
                                    IN S(NRx(prog)))
 
-Emit == pc = "done" => PrintT(ToJson([prog |-> prog, ns |-> NS, safe |-> safe, dt |-> dt, nt |-> NT, x0 |-> x0, V0 |-> V0, G |-> G,
+Emit == pc = "done" => PrintT(ToJson([prog |-> prog, ns |-> NS, safe |-> safe, dt |-> dt, vd |-> vd, nt |-> NT, x0 |-> x0, V0 |-> V0, G |-> G,
                                        vm |-> vm, steps |-> steps, rows |-> rows, vols |-> vols, divided |-> divided,
                                        divtie |-> DivTie, fired |-> fired]))
 =============================================================================
